@@ -214,6 +214,8 @@ def check_case(case):
         except (IndexError, KeyError, TypeError, ValueError, AttributeError) as e:
             raise InvalidCase(repr(e))
         return fails
+    if case.get('check') == 'optsrc':
+        return check_optsrc(case)
     if case.get('check') == 'nest':
         return check_nest(case)[0]
     if case.get('check') == 'text':
@@ -297,6 +299,65 @@ def task_spelled(ctx):
     hyp.drive(strat2, lambda ts: _one(ctx, ts[0], ts[1], 'spelled'), ctx.n(5000, 300000), ctx.seed + 2)
 
 
+def compile_optimised(sources):
+    """compile results (hex or 'raised') in a fresh interpreter started with -O (assert statements stripped)"""
+    import json, os, subprocess, sys, tempfile
+    fd, path = tempfile.mkstemp(prefix='vt-c11-opt-', suffix='.json')
+    try:
+        with os.fdopen(fd, 'w') as f:
+            json.dump({'__d': {'s:mode': 'compile', 's:sources': list(sources)}, '__o': ['s:mode', 's:sources']}, f)
+        root = os.path.dirname(os.path.dirname(os.path.dirname(os.path.abspath(__file__))))
+        r = subprocess.run([sys.executable, '-O', '-m', 'vt.optworker', path], cwd=root, capture_output=True, text=True, timeout=1200,
+                           env=dict(os.environ, PYTHONDONTWRITEBYTECODE='1', PYTHONHASHSEED='0'))
+        if r.returncode != 0:
+            raise RuntimeError('optimised worker failed: ' + r.stderr[-400:])
+        d = json.loads(r.stdout.strip().splitlines()[-1])
+        if not d['optimised']:
+            raise RuntimeError('worker did not run with -O')
+        return d['verdicts']
+    finally:
+        os.unlink(path)
+
+
+def _compile_label(src):
+    k, out = _compile(src)
+    return out.hex() if k == 'ok' and isinstance(out, bytes) else 'raised'
+
+
+def check_optsrc(case):
+    src = case['src']
+    a = _compile_label(src)
+    (b,) = compile_optimised([src])
+    if a != b:
+        return [('c11/compile-result-depends-on-the-interpreter-optimisation-flag', 'src %r: normal %s, python -O %s' % (src[:120], a[:60], b[:60]))]
+    return []
+
+
+def task_optimised(ctx):
+    """what the compiler returns or rejects does not depend on whether the interpreter strips assert statements (python -O)"""
+    sources = []
+    # one-byte operands on both sides of the signed and the unsigned range, for every instruction with such an operand
+    for code in gen.U8_OPS + [92, 200, 255]:
+        nm = O.name_of(code) if code < O.N_OPS else 'NOP%d' % code
+        for v in (0, 1, 127, 128, 129, 200, 255, 256, -1, -128, -129):
+            sources.append('%s d%d OP_TRUE' % (nm, v))
+    def collect(tree):
+        try:
+            sources.append(render.render(tree, render.Chooser([0])))
+        except Exception:
+            pass
+    hyp.drive(gen.source_tree(max_depth=3, sugar=True, big=False), collect, ctx.n(300, 20000), ctx.seed + 9)
+    normal = [_compile_label(s) for s in sources]
+    opt = compile_optimised(sources)
+    for s_, a, b in zip(sources, normal, opt):
+        ctx.case(('optsrc', s_), a == 'raised')
+        ctx.count('optimised:%s' % ('same' if a == b else 'DIFFERENT'))
+        ctx.count('optimised-normal:%s' % ('rejected' if a == 'raised' else 'compiled'))
+        if a != b:
+            ctx.fail('optsrc', 'c11/compile-result-depends-on-the-interpreter-optimisation-flag', {'check': 'optsrc', 'src': s_},
+                     'src %r: normal %s, python -O %s' % (s_[:120], a[:60], b[:60]))
+
+
 def task_nesting(ctx):
     import itertools
     n = 0
@@ -321,6 +382,7 @@ def task_nesting(ctx):
 
 
 TASKS = {
+    'optimised': (task_optimised, 1, 2),
     'nesting': (task_nesting, 2, 4),
     'canon': (task_canon, 6, 16),
     'spelled': (task_spelled, 16, 16),
